@@ -7,6 +7,7 @@ mod checks;
 mod conv;
 mod gen;
 mod report;
+mod script;
 
 use rayon::prelude::*;
 use report::*;
